@@ -16,8 +16,8 @@ META = {
              'interchangeable). distinct = digest(curve, metric, distance, t); non-trivial = at least one accepted '
              'segment with interior points and at least one split'),
     'require': {'partition': 2500, 'nontrivial': 300},
-    'scale': {'quick': 1, 'thorough': 20},
-    'quick_cases': 4000, 'thorough_cases': 80000,
+    'scale': {'quick': 1, 'thorough': 120},
+    'quick_cases': 4000, 'thorough_cases': 480000,
     'assumptions': ['accept/reject comparisons reuse the saved originals of the cost primitives on the same slices (bit-identical)',
                     'a split point within the distance noise floor of the farthest interior point is accepted'],
 }
